@@ -195,4 +195,53 @@ example : evalIs c05Switch (.dict []) (.str "dflt") = true := by decide +kernel
 example : evalIs (.coalesce 3 [.option 1 "A" Option.none Option.none, .option 2 "B" Option.none Option.none])
     (.dict [("B", .int 0)]) (.int 0) = true := by decide +kernel
 
+/-! ### The dictionary builder keeps the order written (`labrea.collections.evaluatable_dict`) -/
+
+theorem ainsert_fresh {α} (k : String) (v : α) (d : List (String × α)) (h : k ∉ d.map Prod.fst) :
+    ainsert k v d = d ++ [(k, v)] := by
+  induction d with
+  | nil => rfl
+  | cons p rest ih =>
+    obtain ⟨k', v'⟩ := p
+    simp only [List.map_cons, List.mem_cons, not_or] at h
+    have hne : ¬ k' = k := fun e => h.1 e.symm
+    simp [ainsert, hne, ih h.2]
+
+/-- the step of `dictOfPairs` -/
+def dictStep (acc : List (String × V)) (p : V) : Option (List (String × V)) :=
+  match iterElems p with
+  | some [.str k, v] => some (ainsert k v acc)
+  | _ => Option.none
+
+theorem dictOfPairs_eq (ps : List V) : dictOfPairs ps = ps.foldlM dictStep [] := rfl
+
+theorem dictStep_pair (acc : List (String × V)) (k : String) (v : V) :
+    dictStep acc (.list [.str k, v]) = some (ainsert k v acc) := rfl
+
+theorem dictOfPairs_go (kvs acc : List (String × V)) (h : (acc.map Prod.fst ++ kvs.map Prod.fst).Nodup) :
+    (kvs.map fun p => V.list [.str p.1, p.2]).foldlM dictStep acc = some (acc ++ kvs) := by
+  induction kvs generalizing acc with
+  | nil => simp
+  | cons p rest ih =>
+    obtain ⟨k, v⟩ := p
+    have hk : k ∉ acc.map Prod.fst := by
+      intro hm
+      have := List.nodup_append.mp h
+      exact this.2.2 k hm k (by simp) rfl
+    have h' : ((acc ++ [(k, v)]).map Prod.fst ++ rest.map Prod.fst).Nodup := by
+      simpa [List.append_assoc] using h
+    rw [List.map_cons, List.foldlM_cons, dictStep_pair, ainsert_fresh k v acc hk]
+    simpa [List.append_assoc] using ih (acc ++ [(k, v)]) h'
+
+/-- **dict_builder_keeps_order.** `dict(pairs)` over pairs with distinct keys — what `evaluatable_dict` applies to its
+    evaluated entries — is the dictionary with exactly those entries in the order written. -/
+theorem dict_builder_keeps_order (kvs : List (String × V)) (h : (kvs.map Prod.fst).Nodup) :
+    builtin "py:dict" [.list (kvs.map fun p => V.list [.str p.1, p.2])] = some (.ok (.dict kvs)) := by
+  have := dictOfPairs_go kvs [] (by simpa using h)
+  simp only [List.nil_append] at this
+  simp only [builtin, iterElems, dictOfPairs_eq, this]
+
+example : builtin "py:dict" [.list [.list [.str "b", .int 2], .list [.str "a", .int 1]]] = some (.ok (.dict [("b", .int 2), ("a", .int 1)])) :=
+  dict_builder_keeps_order [("b", .int 2), ("a", .int 1)] (by decide)
+
 end Labrea
